@@ -459,11 +459,13 @@ spifmem_realloc(const char *var, const char *filename, unsigned long line, void 
 #endif
 
     D_MEM(("Variable %s (%10p -> %lu) at %s:%lu\n", var, ptr, (unsigned long) size, NONULL(filename), line));
-    if (!ptr) {
-        temp = (void *) spifmem_malloc(filename, line, size);
-    } else if (size == 0) {
-        spifmem_free(var, filename, line, ptr);
+    if (size == 0) {
+        if (ptr) {
+            spifmem_free(var, filename, line, ptr);
+        }
         temp = NULL;
+    } else if (!ptr) {
+        temp = (void *) spifmem_malloc(filename, line, size);
     } else {
         temp = (void *) realloc(ptr, size);
         ASSERT_RVAL(!SPIF_PTR_ISNULL(temp), (spif_ptr_t) NULL);
